@@ -97,3 +97,86 @@ Example bufimage_example_schedules :
   final_image false [10; 20; 30; 40]%Z [Consume; Consume; StartOut; ReadRow; Consume; ReadRow; FinishOut; StartOut; ReadRow]
   = [138; 158; 188; 228]%Z.
 Proof. vm_compute. reflexivity. Qed.
+
+(* ------------------------------------------------------------ the display loop *)
+Lemma binv_store : forall diffs s, binv diffs s -> store s = firstn (in_rows s) (undiff diffs None).
+Proof.
+  intros diffs s (A & B & C & D). rewrite <- D, <- C, firstn_app, firstn_all, Nat.sub_diag. simpl.
+  now rewrite app_nil_r.
+Qed.
+
+Lemma undiff_length : forall diffs p, length (undiff diffs p) = length diffs.
+Proof. induction diffs; intros; simpl; auto. Qed.
+
+Lemma binv_outrow : forall diffs s o p, binv diffs s ->
+  binv diffs {| in_rows := in_rows s; first_row := first_row s; store := store s; out_row := o; in_pass := p |}.
+Proof. intros diffs s o p H. exact H. Qed.
+
+Lemma force_spec : forall fuel ahead diffs s, binv diffs s -> length diffs <= in_rows s + fuel ->
+  let s1 := force_input fuel ahead diffs s in
+  binv diffs s1 /\ out_row s1 = out_row s /\ in_rows s <= in_rows s1 /\
+  (out_row s + ahead <= in_rows s1 \/ length diffs <= in_rows s1).
+Proof.
+  induction fuel as [|f IH]; intros ahead diffs s I H; simpl.
+  - split; [exact I|]. split; [reflexivity|]. split; [lia|]. right. lia.
+  - destruct (Nat.leb (out_row s + ahead) (in_rows s) || Nat.leb (length diffs) (in_rows s)) eqn:E.
+    + split; [exact I|]. split; [reflexivity|]. split; [lia|].
+      apply orb_true_iff in E. destruct E as [E|E]; apply Nat.leb_le in E; auto.
+    + apply orb_false_iff in E. destruct E as [_ E]. apply Nat.leb_gt in E.
+      assert (R : in_rows (consume1 diffs s) = S (in_rows s)) by (now apply consume1_rows).
+      destruct (IH ahead diffs (consume1 diffs s) (consume1_inv _ _ I)) as (A & B & C & D); [lia|].
+      assert (O : out_row (consume1 diffs s) = out_row s).
+      { unfold consume1. destruct (nth_error diffs (in_rows s)); reflexivity. }
+      rewrite O in *. split; [exact A|]. split; [exact B|]. split; [lia|]. exact D.
+Qed.
+
+Lemma nth_error_firstn_lt {A} : forall n i (l : list A), i < n -> nth_error (firstn n l) i = nth_error l i.
+Proof.
+  induction n; intros i l H; [lia|]. destruct l; [now destruct i|]. destruct i; simpl; [reflexivity|]. apply IHn. lia.
+Qed.
+
+Lemma live_pass_rows : forall n ahead diffs s, 1 <= ahead -> binv diffs s -> out_row s + n = length diffs ->
+  live_pass n ahead diffs s = map Some (skipn (out_row s) (undiff diffs None)).
+Proof.
+  induction n as [|n IH]; intros ahead diffs s Ha I Hn; simpl.
+  - rewrite skipn_all2; [reflexivity|]. rewrite undiff_length. lia.
+  - destruct (force_spec (length diffs) ahead diffs s I) as (A & B & C & D); [lia|].
+    set (s1 := force_input (length diffs) ahead diffs s) in *.
+    assert (Lt : out_row s < in_rows s1) by (destruct D; lia).
+    assert (Le : in_rows s1 <= length diffs) by (destruct A; auto).
+    assert (U : out_row s < length (undiff diffs None)) by (rewrite undiff_length; lia).
+    assert (E1 : nth_error (store s1) (out_row s1) = nth_error (undiff diffs None) (out_row s)).
+    { rewrite (binv_store _ _ A), B. now apply nth_error_firstn_lt. }
+    rewrite E1.
+    destruct (nth_error (undiff diffs None) (out_row s)) as [v|] eqn:N; [|apply nth_error_None in N; lia].
+    rewrite (IH ahead diffs); [|exact Ha|exact A|simpl; lia].
+    simpl out_row. rewrite B.
+    pose proof (nth_error_split _ _ N) as (l1 & l2 & F & G).
+    rewrite F. rewrite <- G.
+    replace (S (length l1)) with (length (l1 ++ [v])) by (rewrite app_length; simpl; lia).
+    rewrite (skipn_app (length l1) l1), skipn_all, Nat.sub_diag. simpl.
+    replace (l1 ++ v :: l2) with ((l1 ++ [v]) ++ l2) by (rewrite <- app_assoc; reflexivity).
+    rewrite skipn_app, skipn_all, Nat.sub_diag. reflexivity.
+Qed.
+
+(* a pass started at ANY point of the scan shows, in every row, the data of that scan for the row,
+   provided the output side keeps the input at least one row ahead *)
+Theorem display_pass_complete : forall ahead diffs ops, 1 <= ahead ->
+  display_pass ahead diffs (brun false diffs ops) = map Some (undiff diffs None).
+Proof.
+  intros. unfold display_pass.
+  rewrite live_pass_rows.
+  - reflexivity.
+  - exact H.
+  - exact (brun_inv diffs ops binit (binit_inv diffs)).
+  - reflexivity.
+Qed.
+
+(* rows_ahead = 0 (seeded change C07-5): rows are rendered before their data has been read *)
+Example display_pass_zero_ahead_refuted :
+  display_pass 0 [10; 20; 30]%Z (brun false [10; 20; 30]%Z [Consume]) <> map Some (undiff [10; 20; 30]%Z None).
+Proof. vm_compute. discriminate. Qed.
+
+Example display_pass_example :
+  display_pass 1 [10; 20; 30]%Z (brun false [10; 20; 30]%Z [Consume]) = [Some 138; Some 158; Some 188]%Z.
+Proof. vm_compute. reflexivity. Qed.
